@@ -81,6 +81,19 @@
 //!    judged by the same ledger. `recover()` logs nothing, so after it the phase in memory and
 //!    the phase in the log differ when `commit` / `abort` write their records.
 //!
+//! Strengthened (round 6) by two more general kinds, without a new oracle clause:
+//!  * `log_cfgs`: the remaining switches of the log's `WalConfig` (enable_checksums,
+//!    verify_on_replay, pre_check_space, min_free_space_bytes, max_rotated_files) are part of
+//!    the case, per incarnation like `configs` (an operator may restart with other switches, the
+//!    log then holds records with and without checksum); a third of the cases of every shape
+//!    draw them. Empty = `WalConfig::default()`, as in older replay files;
+//!  * `Fill { n, seed }`: `n` further small transactions outside the ledger (begun, voted on,
+//!    committed or aborted at once; a few left open), and a program shape (`gen_long`) that
+//!    inserts 150 - 1 200 of them into a round-1 program: the log grows through tens to hundreds
+//!    of KiB with records at every alignment (the logs of the other shapes are either a few
+//!    hundred bytes long or hold one huge record), while the ledger's transactions are prepared
+//!    and decided before, between and behind the filler. Crash points are sampled / drawn.
+//!
 //! Oracle = ledger of completions that were logged before a restart
 //! (`commit`/`abort` returned `Ok` while the node was alive, or — for the call
 //! cut by the crash — the `TxComplete` record lies wholly in the surviving
@@ -161,6 +174,14 @@ pub enum Step {
     /// bit 1: Committing -> `commit` first (refused outside Prepared), then `complete_commit`;
     /// bit 2: only the first transaction returned, the others stay pending
     Resolve { policy: u8 },
+    /// `n` further small transactions, one after the other, drawn from `seed`: each is begun
+    /// with 1-5 participants (shard ids from 0, from 250 or from 70 000, so that the records
+    /// differ in length), gets its votes (scripted YES / NO messages that take no key lock) and
+    /// is committed or aborted at once; now and then one is aborted while it collects votes, a
+    /// few are left open. They are ballast ("further transactions" of the quantifier): they
+    /// make the log long (tens to hundreds of KiB, records at every alignment) and are not in
+    /// the ledger; no clause is decided on them
+    Fill { n: u16, seed: u64 },
 }
 
 /// One operation of a thread of a `Par` step.
@@ -194,6 +215,40 @@ pub struct LogLimit {
     /// the first `lives` incarnations open the log with the limit, later ones with the
     /// default configuration (the operator lifted it); 255 = every incarnation
     pub lives: u8,
+}
+
+/// The remaining switches of the log's `WalConfig` (size limit and rotation: see `LogLimit`).
+#[derive(Serialize, Deserialize, Clone, Debug, PartialEq)]
+pub struct LogCfg {
+    /// false: records are written with 0 in their CRC field ("no checksum")
+    pub enable_checksums: bool,
+    pub verify_on_replay: bool,
+    /// statvfs before every append
+    pub pre_check_space: bool,
+    /// free space `pre_check_space` asks for on top of the record (0 or the default 100 MiB:
+    /// the answer must not depend on the machine)
+    pub min_free_space_bytes: u64,
+    pub max_rotated_files: u8,
+}
+
+impl LogCfg {
+    fn default_values() -> Self {
+        let d = WalConfig::default();
+        LogCfg {
+            enable_checksums: d.enable_checksums,
+            verify_on_replay: d.verify_on_replay,
+            pre_check_space: d.pre_check_space,
+            min_free_space_bytes: d.min_free_space_bytes,
+            max_rotated_files: d.max_rotated_files.min(255) as u8,
+        }
+    }
+
+    fn show(&self) -> String {
+        format!(
+            "enable_checksums={} verify_on_replay={} pre_check_space={} min_free_space_bytes={} max_rotated_files={}",
+            self.enable_checksums, self.verify_on_replay, self.pre_check_space, self.min_free_space_bytes, self.max_rotated_files
+        )
+    }
 }
 
 /// The coordinator's configuration: every field of `DistributedTxConfig`.
@@ -279,6 +334,19 @@ pub struct Case {
     /// it between restarts). Empty: `DistributedTxConfig::default()` throughout
     #[serde(default)]
     pub configs: Vec<CoordCfg>,
+    /// the switches of the log's `WalConfig`: incarnation i opens the log with
+    /// `log_cfgs[min(i, len-1)]` (several entries: the operator changed them between restarts,
+    /// the log then holds records with and without checksum). Empty: `WalConfig::default()`
+    #[serde(default)]
+    pub log_cfgs: Vec<LogCfg>,
+}
+
+/// The log switches incarnation `inc` opens the log with.
+fn log_cfg_of(case: &Case, inc: usize) -> LogCfg {
+    match case.log_cfgs.len() {
+        0 => LogCfg::default_values(),
+        n => case.log_cfgs[inc.min(n - 1)].clone(),
+    }
 }
 
 /// The configuration incarnation `inc` of the coordinator is built with.
@@ -419,6 +487,32 @@ fn frames(raw: &[u8]) -> (usize, usize, usize) {
     (n, pos, longest)
 }
 
+/// Shape of the log a restart works on: (some complete record's 8-byte header straddles a
+/// multiple of 32 KiB, the last complete record is a TxComplete, its CRC field is 0).
+fn log_shape(raw: &[u8]) -> (bool, bool, bool) {
+    let mut pos = 0usize;
+    let mut straddles = false;
+    let mut last: Option<(usize, usize)> = None;
+    while pos + 8 <= raw.len() {
+        let l = u32::from_le_bytes([raw[pos], raw[pos + 1], raw[pos + 2], raw[pos + 3]]) as usize;
+        if l > (1 << 24) || pos + 8 + l > raw.len() {
+            break;
+        }
+        if pos % 32_768 > 32_760 {
+            straddles = true;
+        }
+        last = Some((pos, l));
+        pos += 8 + l;
+    }
+    match last {
+        Some((at, l)) => {
+            let is_complete = matches!(bitcode::deserialize::<TxWalEntry>(&raw[at + 8..at + 8 + l]), Ok(TxWalEntry::TxComplete { .. }));
+            (straddles, is_complete, raw[at + 4..at + 8] == [0, 0, 0, 0])
+        },
+        None => (straddles, false, false),
+    }
+}
+
 fn cut_choice(cut: u64, lo: u64, hi: u64) -> u64 {
     match cut {
         0 => hi,
@@ -530,13 +624,34 @@ impl<'a> Trial<'a> {
     }
 
     fn open_wal(&self) -> std::io::Result<TxWal> {
-        match self.limit_in_force() {
-            Some(max) => {
-                self.ctx.probe("log_opened_with_size_limit");
-                TxWal::open_with_config(&self.wal, WalConfig { max_size_bytes: max, auto_rotate: false, ..WalConfig::default() })
-            },
-            None => TxWal::open(&self.wal),
+        let limit = self.limit_in_force();
+        if limit.is_none() && self.case.log_cfgs.is_empty() {
+            return TxWal::open(&self.wal);
         }
+        let lc = log_cfg_of(self.case, self.inc);
+        let mut cfg = WalConfig {
+            enable_checksums: lc.enable_checksums,
+            verify_on_replay: lc.verify_on_replay,
+            pre_check_space: lc.pre_check_space,
+            min_free_space_bytes: lc.min_free_space_bytes,
+            max_rotated_files: lc.max_rotated_files as usize,
+            ..WalConfig::default()
+        };
+        if !self.case.log_cfgs.is_empty() {
+            self.ctx.probe("non_default_log_switches");
+            if !lc.enable_checksums {
+                self.ctx.probe("log_opened_without_checksums");
+            }
+            if !lc.verify_on_replay {
+                self.ctx.probe("log_opened_without_verify_on_replay");
+            }
+        }
+        if let Some(max) = limit {
+            self.ctx.probe("log_opened_with_size_limit");
+            cfg.max_size_bytes = max;
+            cfg.auto_rotate = false;
+        }
+        TxWal::open_with_config(&self.wal, cfg)
     }
 
     /// The records of the log of the live coordinator (every append is flushed before
@@ -1156,9 +1271,80 @@ impl<'a> Trial<'a> {
                     }
                 }
             },
+            Step::Fill { n, seed } => self.fill(c, *n, *seed, i),
             Step::Restart => {},
         }
         Ok(())
+    }
+
+    /// A `Fill` step: `n` further small transactions outside the ledger (see `Step::Fill`).
+    fn fill(&mut self, c: &DistributedTxCoordinator, n: u16, seed: u64, i: usize) {
+        let ctx = self.ctx;
+        let mut r = Rng::new(seed);
+        let numbering = self.case.handle_numbering;
+        let (mut begun, mut committed, mut aborted, mut left_open) = (0u32, 0u32, 0u32, 0u32);
+        for _ in 0..n {
+            if !self.alive() {
+                break;
+            }
+            let np = r.range(1, 5) as usize;
+            let base = *r.pick(&[0usize, 0, 250, 70_000]);
+            let parts: Vec<usize> = (0..np).map(|j| base + j).collect();
+            let shape = r.below(24);
+            let all_yes = r.chance(3, 4);
+            let tx = {
+                let _g = id_exclusive();
+                ctx.step_wall_ms(7);
+                let _ = tensor_chain::generate_tx_id();
+                ctx.step_wall_ms(-7);
+                c.begin(&"coord".to_string(), &parts)
+            };
+            let Ok(tx) = tx else { continue };
+            let id = tx.tx_id;
+            begun += 1;
+            if shape == 0 && left_open < 6 {
+                // left collecting votes
+                left_open += 1;
+                continue;
+            }
+            let nvotes = if shape == 1 { r.usize_below(np) } else { np };
+            for (j, shard) in parts.iter().enumerate() {
+                if j >= nvotes || !self.alive() {
+                    break;
+                }
+                let vote = if all_yes || j + 1 < np {
+                    PrepareVote::Yes { lock_handle: Self::free_handle(numbering, &self.next_handle, id), delta: DeltaVector::zero(0) }
+                } else {
+                    PrepareVote::No { reason: "scripted".to_string() }
+                };
+                let _ = c.record_vote(id, *shard, vote);
+            }
+            if !self.alive() {
+                break;
+            }
+            let phase = c.get(id).map(|x| x.phase);
+            if shape == 2 && left_open < 6 && phase == Some(TxPhase::Prepared) {
+                // left with all its votes and no decision
+                left_open += 1;
+                continue;
+            }
+            if phase == Some(TxPhase::Prepared) && r.chance(2, 3) {
+                if c.commit(id).is_ok() {
+                    committed += 1;
+                }
+            } else if c.abort(id, "filler").is_ok() {
+                aborted += 1;
+            }
+        }
+        if self.alive() {
+            let len = std::fs::metadata(&self.wal).map(|m| m.len()).unwrap_or(0);
+            if len > 32 * 1024 {
+                ctx.probe("log_filled_past_32KiB");
+            }
+            ctx.event(&format!("s{i} fill n{n}: begun {begun}, committed {committed}, aborted {aborted}, left open {left_open}; log {len} bytes"));
+        } else {
+            ctx.event(&format!("s{i} fill n{n}: node died after {begun} transactions"));
+        }
     }
 
     /// A `Par` step: the threads' operations run concurrently on the coordinator
@@ -1558,6 +1744,25 @@ impl<'a> Trial<'a> {
             ctx.probe("restart_over_log_record_of_512KiB_or_more");
         }
         let torn = frames_end < raw.len();
+        let (straddles, last_is_complete, last_crc_zero) = log_shape(&raw);
+        if raw.len() > 32 * 1024 {
+            ctx.probe("restart_over_log_longer_than_32KiB");
+        }
+        if raw.len() > 128 * 1024 && longest < 1024 {
+            ctx.probe("restart_over_log_of_small_records_longer_than_128KiB");
+        }
+        if straddles {
+            ctx.probe("restart_over_record_header_straddling_32KiB_boundary");
+        }
+        if torn && last_is_complete {
+            ctx.probe("torn_record_follows_txcomplete");
+            if last_crc_zero {
+                ctx.probe("torn_record_follows_txcomplete_written_without_checksum");
+            }
+        }
+        if torn && last_crc_zero {
+            ctx.probe("reopen_with_torn_tail_behind_record_without_checksum");
+        }
         if let Some(l) = self.torn_open_len.take() {
             if raw.len() as u64 > l {
                 ctx.probe("torn_tail_then_append_then_restart");
@@ -1591,6 +1796,13 @@ impl<'a> Trial<'a> {
             })
             .unwrap_or(0);
         let restores = entries.as_ref().map(|_| open_in_log > 0);
+        if !self.case.log_cfgs.is_empty() {
+            let lc = log_cfg_of(self.case, self.inc);
+            ctx.event(&format!("restart #{} log switches: {}", self.inc, lc.show()));
+            if lc != log_cfg_of(self.case, self.inc - 1) {
+                ctx.probe("log_switches_changed_at_restart");
+            }
+        }
         if !self.case.configs.is_empty() {
             let cfg = cfg_of(self.case, self.inc);
             ctx.event(&format!("restart #{} configuration: {}", self.inc, cfg.show()));
@@ -1906,6 +2118,9 @@ impl<'a> Trial<'a> {
             self.ctx.event(&format!("start configuration: {}", cfg_of(self.case, 0).show()));
             self.ctx.probe("non_default_coordinator_configuration");
         }
+        if !self.case.log_cfgs.is_empty() {
+            self.ctx.event(&format!("start log switches: {}", log_cfg_of(self.case, 0).show()));
+        }
         let c = Arc::new(self.placeholder().with_wal(wal));
         // empty log: no transaction is restored, no id is generated
         let r = c.recover_from_wal();
@@ -2009,6 +2224,7 @@ fn step_kind(s: &Step) -> &'static str {
         Step::BeginWide { .. } => "begin-wide",
         Step::Par { .. } => "par",
         Step::RecoverWal => "recover-wal",
+        Step::Fill { .. } => "fill",
         Step::Resolve { policy } => {
             if policy & 1 != 0 {
                 "resolve-abort"
@@ -2136,7 +2352,7 @@ fn gen_classic(rng: &mut Rng) -> Case {
         )
     };
     let handle_numbering = u8::from(rng.chance(1, 2));
-    Case { steps, recover_after_restart, mode, handle_numbering, log_limit: None, configs: Vec::new() }
+    Case { steps, recover_after_restart, mode, handle_numbering, log_limit: None, configs: Vec::new(), log_cfgs: Vec::new() }
 }
 
 /// The log configuration as part of the case: a round-1 program whose log has a hard size
@@ -2162,6 +2378,67 @@ fn gen_limited(rng: &mut Rng, with_crashes: bool) -> Case {
     } else {
         case.mode = Mode::Limits { seed: rng.next_u64(), points: 0 };
     }
+    case
+}
+
+/// The switches of the log's `WalConfig` for a case: one set for every incarnation, or
+/// (3 of 8) another one from the first restart on (default -> drawn, drawn -> drawn, drawn -> default).
+fn gen_log_cfgs(rng: &mut Rng) -> Vec<LogCfg> {
+    let one = |rng: &mut Rng| LogCfg {
+        enable_checksums: rng.chance(1, 2),
+        verify_on_replay: rng.chance(2, 3),
+        pre_check_space: rng.chance(2, 3),
+        min_free_space_bytes: if rng.chance(1, 3) { 0 } else { LogCfg::default_values().min_free_space_bytes },
+        max_rotated_files: *rng.pick(&[0u8, 1, 3, 3]),
+    };
+    match rng.below(8) {
+        0 => vec![LogCfg::default_values(), one(rng)],
+        1 => vec![one(rng), one(rng)],
+        2 => vec![one(rng), LogCfg::default_values()],
+        _ => vec![one(rng)],
+    }
+}
+
+/// Long logs of small records: a round-1 program into which 1-3 `Fill` steps (150 - 1 200 further
+/// small transactions in all) are inserted, so that the log grows through tens to hundreds of
+/// KiB with records at every alignment while the program's transactions are begun, voted on
+/// and decided before, between and behind them. One execution is dear: crash points are
+/// sampled, or 1-3 drawn crashes (anywhere in the program, the filler included).
+fn gen_long(rng: &mut Rng) -> Case {
+    let mut case = gen_classic(rng);
+    let total = match rng.below(4) {
+        0 => rng.range(150, 300),
+        1 | 2 => rng.range(300, 700),
+        _ => rng.range(700, 1200),
+    };
+    let nfill = rng.range(1, 3);
+    let mut left = total;
+    for k in 0..nfill {
+        let n = if k + 1 == nfill || left < 3 { left } else { rng.range(1, left - 1) };
+        left -= n;
+        // mostly behind the first steps of the program (transactions are open across the filler)
+        let lo = if case.steps.len() >= 3 && rng.chance(3, 4) { 2 } else { 0 };
+        let at = rng.range(lo as u64, case.steps.len() as u64) as usize;
+        case.steps.insert(at, Step::Fill { n: n as u16, seed: rng.next_u64() });
+        if left == 0 {
+            break;
+        }
+    }
+    let syscalls_estimate = total * 16;
+    case.mode = if rng.chance(3, 4) {
+        Mode::Sample { seed: rng.next_u64(), points: rng.range(6, 14) as u32 }
+    } else {
+        let n = rng.range(1, 3);
+        Mode::Chain(
+            (0..n)
+                .map(|k| CrashSpec {
+                    nth: if k == 0 { rng.below(syscalls_estimate) } else { rng.below(12) },
+                    bytes: if rng.chance(2, 3) { Some(rng.range(1, 30) as usize) } else { None },
+                    cut: rng.below(6),
+                })
+                .collect(),
+        )
+    };
     case
 }
 
@@ -2318,7 +2595,7 @@ fn gen_par(rng: &mut Rng) -> Case {
         5 => Mode::Sample { seed: 0, points: 0 },
         _ => gen_chain(rng, 4 * steps.len()),
     };
-    Case { steps, recover_after_restart, mode, handle_numbering: u8::from(rng.chance(1, 2)), log_limit: None, configs: Vec::new() }
+    Case { steps, recover_after_restart, mode, handle_numbering: u8::from(rng.chance(1, 2)), log_limit: None, configs: Vec::new(), log_cfgs: Vec::new() }
 }
 
 /// A coordinator configuration: every field of `DistributedTxConfig`, small values included.
@@ -2442,7 +2719,7 @@ fn gen_rounds(rng: &mut Rng) -> Case {
         4..=5 => Mode::Enumerate,
         _ => gen_chain(rng, steps.len()),
     };
-    Case { steps, recover_after_restart, mode, handle_numbering: u8::from(rng.chance(1, 2)), log_limit: None, configs }
+    Case { steps, recover_after_restart, mode, handle_numbering: u8::from(rng.chance(1, 2)), log_limit: None, configs, log_cfgs: Vec::new() }
 }
 
 /// Recovery calls at arbitrary points of a live incarnation (the quantifier's "every following
@@ -2560,7 +2837,7 @@ fn gen_live(rng: &mut Rng) -> Case {
         4..=5 => Mode::Sample { seed: rng.next_u64(), points: rng.range(40, 120) as u32 },
         _ => gen_chain(rng, steps.len()),
     };
-    Case { steps, recover_after_restart, mode, handle_numbering: u8::from(rng.chance(1, 2)), log_limit: None, configs }
+    Case { steps, recover_after_restart, mode, handle_numbering: u8::from(rng.chance(1, 2)), log_limit: None, configs, log_cfgs: Vec::new() }
 }
 
 /// `Mode::Limits`: see there.
@@ -2886,6 +3163,30 @@ fn run_mode(case: &Case, ctx: &Arc<RunCtx>, out: &mut RunOut) {
     }
 }
 
+impl C13 {
+    fn generate_shape(rng: &mut Rng, index: u64) -> Case {
+        // every second of the round-1 programs of slot 0: the long-log shape
+        if index % 16 == 8 {
+            return gen_long(rng);
+        }
+        match index % 8 {
+            3 => gen_wide(rng, (index / 8) % 12 == 0),
+            1 | 5 => gen_par(rng),
+            7 => gen_limited(rng, (index / 8) % 4 == 3),
+            6 => gen_rounds(rng),
+            4 => gen_live(rng),
+            _ => {
+                // the round-1 program; every fourth of them under a drawn configuration
+                let mut case = gen_classic(rng);
+                if rng.chance(1, 4) {
+                    case.configs = gen_configs(rng);
+                }
+                case
+            },
+        }
+    }
+}
+
 impl Scenario for C13 {
     type Case = Case;
     fn id(&self) -> &'static str {
@@ -2902,21 +3203,13 @@ impl Scenario for C13 {
     }
 
     fn generate(&self, rng: &mut Rng, _tier: Tier, index: u64) -> Case {
-        match index % 8 {
-            3 => gen_wide(rng, (index / 8) % 12 == 0),
-            1 | 5 => gen_par(rng),
-            7 => gen_limited(rng, (index / 8) % 4 == 3),
-            6 => gen_rounds(rng),
-            4 => gen_live(rng),
-            _ => {
-                // the round-1 program; every fourth of them under a drawn configuration
-                let mut case = gen_classic(rng);
-                if rng.chance(1, 4) {
-                    case.configs = gen_configs(rng);
-                }
-                case
-            },
+        let mut case = Self::generate_shape(rng, index);
+        // the switches of the log configuration are part of the case: a third of the cases of
+        // every shape run with drawn ones (drawn last: the shapes' own draws are as before)
+        if rng.chance(1, 3) {
+            case.log_cfgs = gen_log_cfgs(rng);
         }
+        case
     }
 
     fn run(&self, case: &Case, ctx: &Arc<RunCtx>) -> RunOut {
@@ -2935,7 +3228,14 @@ impl Scenario for C13 {
         for c in &case.configs {
             ctx.fp(&format!("cfg:{}:{}", c.max_concurrent, c.prepare_timeout_ms));
         }
+        for l in &case.log_cfgs {
+            ctx.fp(&format!("logcfg:{}:{}:{}", l.enable_checksums, l.verify_on_replay, l.pre_check_space));
+        }
         run_mode(case, ctx, &mut out);
+        if let (Some(v), false) = (&mut out.violation, case.log_cfgs.is_empty()) {
+            let shown: Vec<String> = case.log_cfgs.iter().map(LogCfg::show).collect();
+            v.detail = format!("{} [log switches (WalConfig) by incarnation (the last one stays): {}]", v.detail, shown.join(" | "));
+        }
         if let (Some(v), false) = (&mut out.violation, case.configs.is_empty()) {
             let shown: Vec<String> = case.configs.iter().map(CoordCfg::show).collect();
             v.detail = format!("{} [coordinator configuration by incarnation (the last one stays): {}]", v.detail, shown.join(" | "));
@@ -3037,6 +3337,44 @@ impl Scenario for C13 {
                 }
             }
         }
+        if !case.log_cfgs.is_empty() {
+            // the default switches; one set for every incarnation; single switches back to their defaults
+            let mut c = case.clone();
+            c.log_cfgs = Vec::new();
+            v.push(c);
+            if case.log_cfgs.len() > 1 {
+                for k in 0..case.log_cfgs.len() {
+                    let mut c = case.clone();
+                    c.log_cfgs = vec![case.log_cfgs[k].clone()];
+                    v.push(c);
+                }
+            }
+            let d = LogCfg::default_values();
+            for k in 0..case.log_cfgs.len() {
+                let cur = &case.log_cfgs[k];
+                let mut cands: Vec<LogCfg> = Vec::new();
+                if cur.enable_checksums != d.enable_checksums {
+                    cands.push(LogCfg { enable_checksums: d.enable_checksums, ..cur.clone() });
+                }
+                if cur.verify_on_replay != d.verify_on_replay {
+                    cands.push(LogCfg { verify_on_replay: d.verify_on_replay, ..cur.clone() });
+                }
+                if cur.pre_check_space != d.pre_check_space {
+                    cands.push(LogCfg { pre_check_space: d.pre_check_space, ..cur.clone() });
+                }
+                if cur.min_free_space_bytes != d.min_free_space_bytes {
+                    cands.push(LogCfg { min_free_space_bytes: d.min_free_space_bytes, ..cur.clone() });
+                }
+                if cur.max_rotated_files != d.max_rotated_files {
+                    cands.push(LogCfg { max_rotated_files: d.max_rotated_files, ..cur.clone() });
+                }
+                for cand in cands {
+                    let mut c = case.clone();
+                    c.log_cfgs[k] = cand;
+                    v.push(c);
+                }
+            }
+        }
         if let Some(l) = &case.log_limit {
             let mut c = case.clone();
             c.log_limit = None;
@@ -3069,6 +3407,13 @@ impl Scenario for C13 {
                             c.steps[i] = Step::Resolve { policy: pol };
                             v.push(c);
                         }
+                    }
+                },
+                Step::Fill { n, seed } if *n > 1 => {
+                    for m in [*n / 2, *n - 1] {
+                        let mut c = case.clone();
+                        c.steps[i] = Step::Fill { n: m, seed: *seed };
+                        v.push(c);
                     }
                 },
                 Step::BeginWide { t, n, base, kb } if *n > 1 => {
@@ -3179,14 +3524,24 @@ impl Scenario for C13 {
             "live_recover_from_wal_in_later_incarnation",
             "live_recover_from_wal_brought_back_dropped_tx",
             "live_recover_from_wal_reset_phase_changed_in_memory",
+            // round 6
+            "log_opened_without_checksums",
+            "log_opened_without_verify_on_replay",
+            "log_switches_changed_at_restart",
+            "torn_record_follows_txcomplete_written_without_checksum",
+            "reopen_with_torn_tail_behind_record_without_checksum",
+            "log_filled_past_32KiB",
+            "restart_over_log_longer_than_32KiB",
+            "restart_over_log_of_small_records_longer_than_128KiB",
+            "restart_over_record_header_straddling_32KiB_boundary",
         ]
     }
     fn rule(&self) -> String {
-        "A case is a generated program followed by a fixed epilogue (restart; drive every recovered transaction to completion; restart; sweep after every timeout; a new transaction on the same keys; restart). Six shapes, chosen by run index: (2/8) the round-1 program: 1-4 transactions of 1-3 participants with overlapping keys; begin, votes yes/no/resent/flipped/late, commit, abort, clock advances, timeout sweeps, abort broadcasts, pending-decision completion, recover(), clean restarts; (1/8) the same with one transaction of 8 300 - 262 000 participants begun in the middle (TxBegin / AbortIntent records of 64 KiB - 1 MiB; every 12th of these has the 1 MiB record); (2/8) 1-3 transactions whose participants' votes and, now and then, commit and/or abort are issued by 2-4 scheduled threads (one block for all or one per transaction; participants prepare inside the threads or one after the other ahead of them), followed by decisions, clean restarts or a commit/abort race after a restart; (1/8) the round-1 program on a log with a hard size limit without rotation (WalConfig max_size_bytes, auto_rotate=false): three of four of these in Limits mode, one of four with a drawn limit of 20 bytes up to about the size of the program's records, in force for the first 1 or 2 incarnations or always, together with 1-3 crashes (Chain mode); (1/8) the configuration shape: 2-3 rounds of as many transactions (1-2 participants, mostly disjoint keys) as the coordinator's max_concurrent admits and now and then one more (refused), mostly all-YES votes, a few decisions, and between the rounds one of: every timeout passes + cleanup_timeouts (+ abort broadcast), clean restart, sweep then restart, restart then sweep, pending decisions / drive, advance exactly to the timeout + sweep, advance + recover() + decide, nothing; up to 6 transactions; Sample (40-120 crash points), Enumerate or Chain mode; (1/8) the live-recovery shape: 1-3 transactions of 1-3 participants (mostly all-YES votes, so that Prepared is logged; now and then decided at once), then 2-5 blocks of [no clock advance, or one of half the timeout / exactly the timeout / past the configured timeout / past the 5 s timeout of restored transactions] + [one recovery call on the running coordinator: recover(), recover_from_wal(), both in either order, cleanup_timeouts, or none] + [what follows it: Resolve = get_pending_decisions and for every (or only the first) transaction it returned complete_abort or the logging abort() for Aborting ones and complete_commit or commit()-then-complete_commit for Committing ones; Decide; DriveAll; commit/abort of 1-2 drawn transactions; a late vote and Resolve; nothing], and between the blocks a clean restart (3/10), a further transaction, an abort broadcast, a second decision on a drawn transaction, or nothing; default configuration (1/2) or a drawn one with max_concurrent >= 4; Enumerate (1/2), Sample (40-120 points) or Chain mode. The coordinator's configuration is part of the case (every field of DistributedTxConfig: max_concurrent 0-5 or 100, prepare_timeout_ms 0 - 60 000, commit_timeout_ms, orthogonal_threshold -1 - 2, optimistic_locking, tx_queue_soft_limit_pct), the same for every incarnation or (3 of 8) changed at the first restart (default -> drawn, drawn -> drawn, drawn -> default): always in the configuration shape, in half of the live-recovery programs, in every fourth round-1 program, default elsewhere; the epilogue's and the live tails' clock advance is past the longest configured timeout. In half of the cases the YES votes carry participant-numbered lock handles that start again from 1 in every incarnation. Enumerate mode (round-1 shape): every mutating syscall boundary of program+epilogue (un-synced log bytes kept, dropped, or cut at a pseudo-random length) and byte offsets inside every log write (all offsets of records up to 48 bytes, ~25 sampled ones of longer records) are each taken as a power-loss crash point, each followed by restart from the log, the property checks, the rest of the program and the epilogue (three more restarts). Sample mode (wide and thread shapes): a seeded subset (10-40) of the same crash points, and, for every thread block, the schedules with preemption bound 1 (each thread starts first; one switch at schedule point j, for every j; at most 64 per case) without a crash. Limits mode: a reference execution without limit gives the log size before every record of program+epilogue; for every record, the limit is set so that this record is the first one refused, with no room left and with one byte less than it needs (shorter records still fit), each followed by (a) the epilogue at once, (b) advance 6 s + cleanup_timeouts + process_pending_aborts on the live coordinator and then the epilogue, (c) abort of every transaction on the live coordinator and then the epilogue; the limit stays for ever, or is lifted at the next restart, or at the one after it (rotating); no crash. Chain mode: 1-3 seeded crashes in one execution, the later ones shortly after a restart. inner_enumerated_points counts all these executions. Non-trivial: at least one crash fired (Chain) or the program issued >=2 mutating syscalls (Enumerate, Sample, Limits). Distinct: hash of (recover flag, mode, handle numbering, lives of the log limit, max_concurrent and prepare timeout of the configurations, sequence of step kinds and crash sites).".into()
+        "A case is a generated program followed by a fixed epilogue (restart; drive every recovered transaction to completion; restart; sweep after every timeout; a new transaction on the same keys; restart). Seven shapes, chosen by run index: (1/16) the long-log shape: a round-1 program with 1-3 Fill steps inserted (150 - 1 200 further small transactions of 1-5 participants in all, outside the ledger: begun, voted on, committed or aborted at once, a few left open), so that the log grows through tens to hundreds of KiB of small records at every alignment while the program's transactions are open across the filler; Sample (6-14 crash points) or Chain mode; (3/16) the round-1 program: 1-4 transactions of 1-3 participants with overlapping keys; begin, votes yes/no/resent/flipped/late, commit, abort, clock advances, timeout sweeps, abort broadcasts, pending-decision completion, recover(), clean restarts; (1/8) the same with one transaction of 8 300 - 262 000 participants begun in the middle (TxBegin / AbortIntent records of 64 KiB - 1 MiB; every 12th of these has the 1 MiB record); (2/8) 1-3 transactions whose participants' votes and, now and then, commit and/or abort are issued by 2-4 scheduled threads (one block for all or one per transaction; participants prepare inside the threads or one after the other ahead of them), followed by decisions, clean restarts or a commit/abort race after a restart; (1/8) the round-1 program on a log with a hard size limit without rotation (WalConfig max_size_bytes, auto_rotate=false): three of four of these in Limits mode, one of four with a drawn limit of 20 bytes up to about the size of the program's records, in force for the first 1 or 2 incarnations or always, together with 1-3 crashes (Chain mode); (1/8) the configuration shape: 2-3 rounds of as many transactions (1-2 participants, mostly disjoint keys) as the coordinator's max_concurrent admits and now and then one more (refused), mostly all-YES votes, a few decisions, and between the rounds one of: every timeout passes + cleanup_timeouts (+ abort broadcast), clean restart, sweep then restart, restart then sweep, pending decisions / drive, advance exactly to the timeout + sweep, advance + recover() + decide, nothing; up to 6 transactions; Sample (40-120 crash points), Enumerate or Chain mode; (1/8) the live-recovery shape: 1-3 transactions of 1-3 participants (mostly all-YES votes, so that Prepared is logged; now and then decided at once), then 2-5 blocks of [no clock advance, or one of half the timeout / exactly the timeout / past the configured timeout / past the 5 s timeout of restored transactions] + [one recovery call on the running coordinator: recover(), recover_from_wal(), both in either order, cleanup_timeouts, or none] + [what follows it: Resolve = get_pending_decisions and for every (or only the first) transaction it returned complete_abort or the logging abort() for Aborting ones and complete_commit or commit()-then-complete_commit for Committing ones; Decide; DriveAll; commit/abort of 1-2 drawn transactions; a late vote and Resolve; nothing], and between the blocks a clean restart (3/10), a further transaction, an abort broadcast, a second decision on a drawn transaction, or nothing; default configuration (1/2) or a drawn one with max_concurrent >= 4; Enumerate (1/2), Sample (40-120 points) or Chain mode. The coordinator's configuration is part of the case (every field of DistributedTxConfig: max_concurrent 0-5 or 100, prepare_timeout_ms 0 - 60 000, commit_timeout_ms, orthogonal_threshold -1 - 2, optimistic_locking, tx_queue_soft_limit_pct), the same for every incarnation or (3 of 8) changed at the first restart (default -> drawn, drawn -> drawn, drawn -> default): always in the configuration shape, in half of the live-recovery programs, in every fourth round-1 program, default elsewhere; the epilogue's and the live tails' clock advance is past the longest configured timeout. The remaining switches of the log's WalConfig are part of the case as well (a third of the cases of every shape): enable_checksums (off in half of the drawn sets), verify_on_replay, pre_check_space, min_free_space_bytes (0 or default), max_rotated_files, the same for every incarnation or (3 of 8) changed at the first restart. In half of the cases the YES votes carry participant-numbered lock handles that start again from 1 in every incarnation. Enumerate mode (round-1 shape): every mutating syscall boundary of program+epilogue (un-synced log bytes kept, dropped, or cut at a pseudo-random length) and byte offsets inside every log write (all offsets of records up to 48 bytes, ~25 sampled ones of longer records) are each taken as a power-loss crash point, each followed by restart from the log, the property checks, the rest of the program and the epilogue (three more restarts). Sample mode (wide and thread shapes): a seeded subset (10-40) of the same crash points, and, for every thread block, the schedules with preemption bound 1 (each thread starts first; one switch at schedule point j, for every j; at most 64 per case) without a crash. Limits mode: a reference execution without limit gives the log size before every record of program+epilogue; for every record, the limit is set so that this record is the first one refused, with no room left and with one byte less than it needs (shorter records still fit), each followed by (a) the epilogue at once, (b) advance 6 s + cleanup_timeouts + process_pending_aborts on the live coordinator and then the epilogue, (c) abort of every transaction on the live coordinator and then the epilogue; the limit stays for ever, or is lifted at the next restart, or at the one after it (rotating); no crash. Chain mode: 1-3 seeded crashes in one execution, the later ones shortly after a restart. inner_enumerated_points counts all these executions. Non-trivial: at least one crash fired (Chain) or the program issued >=2 mutating syscalls (Enumerate, Sample, Limits). Distinct: hash of (recover flag, mode, handle numbering, lives of the log limit, max_concurrent and prepare timeout of the configurations, sequence of step kinds and crash sites).".into()
     }
     fn components(&self) -> Value {
         json!({
-            "real": ["tensor_chain::DistributedTxCoordinator (new(.., DistributedTxConfig { every field from the case }), begin, handle_prepare, record_vote, commit, abort, cleanup_timeouts, process_pending_aborts, recover_from_wal (after every restart and, as a step, on the running coordinator), recover, get_pending_decisions, complete_commit, complete_abort, lock_manager)", "tensor_chain::TxWal (open, open_with_config(WalConfig { max_size_bytes: <case>, auto_rotate: false, ..default }) in the incarnations the case names, append, replay), TxRecoveryState", "LockManager / WaitForGraph", "std::fs / BufWriter", "tensor_chain::sync_compat locks (their acquisitions are the schedule points of the thread blocks)"],
+            "real": ["tensor_chain::DistributedTxCoordinator (new(.., DistributedTxConfig { every field from the case }), begin, handle_prepare, record_vote, commit, abort, cleanup_timeouts, process_pending_aborts, recover_from_wal (after every restart and, as a step, on the running coordinator), recover, get_pending_decisions, complete_commit, complete_abort, lock_manager)", "tensor_chain::TxWal (open, open_with_config(WalConfig { max_size_bytes: <case>, auto_rotate: false, enable_checksums / verify_on_replay / pre_check_space / min_free_space_bytes / max_rotated_files: <case> }) in the incarnations the case names, append, replay), TxRecoveryState", "LockManager / WaitForGraph", "std::fs / BufWriter", "tensor_chain::sync_compat locks (their acquisitions are the schedule points of the thread blocks)"],
             "simulated": ["disk: libc write/fsync/open/ftruncate interposed, files on tmpfs with durable-watermark bookkeeping; crash at a chosen syscall/byte; power loss cuts the log to a length between fsynced and written", "clock (SystemTime/Instant) advanced by the step list", "network: SimTransport collects the abort broadcasts", "threads of a Par step: real OS threads run one at a time by the baton scheduler, switched only at tensor_chain lock acquisitions and between operations, the picks are part of the case"],
             "stub": ["participants: votes are scripted by the step list (a first YES takes its lock through the coordinator's real handle_prepare; with handle_numbering=1 the vote names that lock by the participant's own number, 1, 2, ... in every incarnation)"]
         })
@@ -3203,6 +3558,7 @@ impl Scenario for C13 {
             "'locks of completed transactions are released' after a restart is decided on recovery's report: the restarted coordinator's lock manager is new, so a lock that a completed transaction never gave back exists only as log records; it counts as released when the log holds a LockRelease record of that transaction for it or AllLocksReleased for the transaction, or when TxRecoveryState (what recover_from_wal acts on) lists it as orphaned for that transaction. A lock is identified by (transaction, handle), never by the handle value alone".into(),
             "the coordinator's configuration is an input like the program: any DistributedTxConfig may be given to any incarnation (an operator may restart the coordinator with another configuration); a begin() refused because max_concurrent transactions are pending is un-acknowledged (no transaction exists, nothing is claimed about it); the clauses about restored transactions are not conditioned on the configuration (the text has no such condition)".into(),
             "recovery calls are legal at any point of a live incarnation (the quantifier's 'every following sequence of recovery calls'): recover(), recover_from_wal(), get_pending_decisions() and complete_commit/complete_abort, commit and abort of whatever they report are issued on the running coordinator like any other step; they are judged by the ledger alone (no clause is added for them): recover() and complete_* write no log record, so what they do in memory is neither a logged completion nor a reversal; a transaction that recover_from_wal brings back on the running coordinator after it was finished in memory without a log record is an observation".into(),
+            "the switches of the log (WalConfig) are an input like the program: any incarnation may open the log with any of them (checksums off, verification off, no free-space check), also with other ones than the incarnation that wrote the records; no disk corruption is simulated, so verify_on_replay never has anything to find. The transactions of a Fill step are outside the ledger: no clause is decided on them, they only make the log long; those left open count against max_concurrent like any other".into(),
             "in a thread block every participant's messages come from one thread (two different answers of one participant never race each other; they do follow each other, as in round 1); the ledger is updated in the order in which the coordinator's calls returned".into(),
         ]
     }
